@@ -501,7 +501,7 @@ def ch_eq(a, b):
             return False
         if len(b.dom) == 1 and b.dom[0][0] == b.dom[0][1]:
             return True
-        key = (b.z.get_id(), o)
+        key = ("c", b.z.get_id(), o)     # tagged: term ids and code points are both small integers
         hit = _cheq_cache.get(key)
         if hit is None:
             hit = _cheq_cache[key] = (b.z == o, b.z)
@@ -513,7 +513,7 @@ def ch_eq(a, b):
         return True
     if not ranges_inter(a.dom, b.dom):
         return False
-    key = (ia, ib)
+    key = ("t", ia, ib)
     hit = _cheq_cache.get(key)
     if hit is None:
         hit = _cheq_cache[key] = (a.z == b.z, a.z, b.z)
